@@ -198,6 +198,9 @@ class AppInst:
             return True
         elif name == "raise":
             raise PuppetError("scripted failure")
+        elif name == "raise_group":
+            # what an application that runs its own task group / nursery ends with when a child task fails
+            raise ExceptionGroup("scripted failure in a task group", [PuppetError("scripted failure")])
         elif name == "cancel":
             # the application ends through cancellation of its own task (e.g. it awaited something
             # that was cancelled); only the asyncio worker lets a task do that to itself
@@ -229,6 +232,12 @@ class AppInst:
                     return
         except PuppetError:
             how = "raise"
+            raise
+        except ExceptionGroup as group:
+            if group.subgroup(PuppetError) is None:
+                how = "exc:" + type(group).__name__
+            else:
+                how = "raise"
             raise
         except BaseException as error:  # cancellation (asyncio.CancelledError / trio.Cancelled)
             how = "cancelled" if "Cancel" in type(error).__name__ else "exc:" + type(error).__name__
